@@ -1,8 +1,8 @@
 # C17 — Task scopes join every task, report a first failure and cancel the rest.
 CFG = {
     "gen": [],
-    "props": ["EraVerif.Props.C17"],
-    "required_theorems": [
+    "props": ["EraVerif.Props.C17", "EraVerif.Props.C17sig"],
+    "required_theorems": ["no_lost_wakeup", "after_send_ready", "race_ok", "split_poll_loses_wakeup", 
         "terminated_iff_no_task", "run_returns_after_all_tasks", "returned_scope_is_joined",
         "scope_returns_after_task_ends", "no_later_event_of_released", "no_spawn_into_returned_scope",
         "result_root_iff_all_ok", "error_is_first", "panic_reraised_iff", "unwrap_never_panics",
